@@ -36,7 +36,8 @@ ConsumeUse(c, sc, ev) == TRUE
 
 \* Declare(n, k, deps)
 ConsumeDecl(c, u, sc, ev) ==
-  /\ D!OnceAt(sc, pos) \/ Verdict(c, "DeclaredOnce", sc.name, ev.n, [k |-> ev.k])
+  /\ IF D!OnceAt(sc, pos) THEN TRUE
+     ELSE Verdict(c, "DeclaredOnce", sc.name, ev.n, [k |-> ev.k])
   /\ Each(D!LateDeps(sc, pos),
           LAMBDA d : Verdict(c, "DeclaredBeforeDependent", sc.name, d,
                              [dependent |-> ev.n, k |-> ev.k, depkind |-> D!KindOf(sc, d),
@@ -57,13 +58,15 @@ CloseScope(c, u, sc) ==
   \* a dummy argument / an untyped function's result needs a local declaration
   /\ Each({d \in D!DSeqRange(sc.dummies) : d \notin local /\ ~D!PossiblyImported(u, si)},
           LAMBDA n : Verdict(c, "EveryReferenceResolves", sc.name, n, [in |-> "dummy"]))
-  /\ (sc.kind = "function" /\ ~sc.typed /\ sc.result \notin local)
-        => Verdict(c, "EveryReferenceResolves", sc.name, sc.result, [in |-> "result"])
+  /\ IF sc.kind = "function" /\ ~sc.typed /\ sc.result \notin local
+     THEN Verdict(c, "EveryReferenceResolves", sc.name, sc.result, [in |-> "result"])
+     ELSE TRUE
   /\ Each(D!Captured(sc.pairs),
           LAMBDA p : Verdict(c, "NoCapture", sc.name, p[2], [symbol |-> p[1]]))
-  /\ (D!PossiblyImported(u, si)
-      /\ \E n \in D!DSeqRange(sc.refs) : ~D!Resolves(u, si, n))
-        => Possibly(c, sc.name, Cardinality({n \in D!DSeqRange(sc.refs) : ~D!Resolves(u, si, n)}))
+  /\ IF D!PossiblyImported(u, si)
+        /\ \E n \in D!DSeqRange(sc.refs) : ~D!Resolves(u, si, n)
+     THEN Possibly(c, sc.name, Cardinality({n \in D!DSeqRange(sc.refs) : ~D!Resolves(u, si, n)}))
+     ELSE TRUE
 
 Step == LET c == Cases[cid]
             u == c.scopes IN
